@@ -1322,3 +1322,16 @@ func fnv64(s string) uint64 {
 	}
 	return h
 }
+
+// LiveTTL counts the live KV pairs that carry a TTL (a reach probe).
+func (s *State) LiveTTL(now int64) int {
+	n := 0
+	for _, m := range s.KV {
+		for _, r := range m {
+			if r.TTL != 0 && live(r, now) {
+				n++
+			}
+		}
+	}
+	return n
+}
